@@ -6,7 +6,7 @@ from .. import common as C
 from ..gen_inv import PlanGen, parse_table
 from .. import progcheck as PC
 from .dispatch_common import plan_summary
-from .c16 import d17_shape, d18_shape
+from .c16 import d17_shape, d17_captured, d18_shape
 from .c15 import relaxed_non_key_params
 
 PROP = "C03"
@@ -60,7 +60,7 @@ def d3_shape(plan):
 def classify(plan, macro, ref_table, known):
     codes = set(PC.error_codes(macro))
     if macro["rc"] != 0:
-        if "E0425" in codes and d17_shape(plan) and "F-D17" in known:
+        if ("E0425" in codes or d17_captured(plan, codes)) and d17_shape(plan) and "F-D17" in known:
             return "F-D17"
         if "E0203" in codes and any(g[0] == "ty" and "?Sized" in (g[2] or "") for g in plan.trait_generics) and "F-D16" in known:
             return "F-D16"
